@@ -203,3 +203,46 @@ func VxC14BatchHeadersFollowReaderContract() {
 		lastSeq, lastEnd = seq, seq+cnt
 	}
 }
+
+// C14-H11 / C13-H10: the batch boundaries are the caller's. Whatever the number of entries buffered between
+// two Flush calls - one, a few hundred, a few thousand (a burst of logged-but-unanswered messages) - nothing
+// reaches the log file before Flush is called (no partial batch can survive a crash before it), and ONE Flush
+// that reports success has written them ALL, in one record that counts them all, and left nothing pending:
+// the driver broadcasts right after Flush returns, and the input that caused the broadcast is the newest
+// buffered entry.
+func VxC14BatchBoundariesAreTheCallers() {
+	vx.Bound("one batch of n in {1, 3, 520, 2060} (thorough: {1, 3, 300, 520, 1030, 2060, 4100}) entries (start markers of distinct heights; sizes around powers of two a buffer bound might use) buffered on a store with an empty log; then one Flush")
+	cw := &vxCaptureWriter{}
+	s := vxNewStore(0)
+	s.wal = newWALWriter(nil, "", 2)
+	s.wal.writer, s.wal.currentWALNum = cw, 1
+	sizes := []int{1, 3, 520, 2060}
+	if vx.Thorough() {
+		sizes = []int{1, 3, 300, 520, 1030, 2060, 4100}
+	}
+	n := sizes[vx.Choice("entries-in-the-batch", len(sizes))]
+	for i := 0; i < n; i++ {
+		st := wal.Start(types.Height(1 + i))
+		vx.Assert(s.SetWALEntry(&st) == nil, "set-entry")
+	}
+	vx.Assert(len(cw.batches) == 0, "nothing-reaches-the-log-before-flush")
+	seen := 0
+	for range s.LoadAllEntries() {
+		seen++
+	}
+	vx.Assert(seen == 0, "unflushed-entries-are-not-served-as-logged")
+	vx.Assert(s.Flush() == nil, "flush-ok")
+	vx.Assert(len(s.pendingRecords) == 0, "successful-flush-leaves-nothing-pending")
+	vx.Assert(len(cw.batches) == 1, "one-flush-writes-one-record")
+	total := uint64(0)
+	for _, b := range cw.batches {
+		vx.Assert(len(b) >= 12, "batch-has-a-header")
+		total += uint64(b[8]) | uint64(b[9])<<8 | uint64(b[10])<<16 | uint64(b[11])<<24
+	}
+	vx.Assert(total == uint64(n), "flushed-records-count-every-buffered-entry")
+	seen = 0
+	for range s.LoadAllEntries() {
+		seen++
+	}
+	vx.Assert(seen == n, "every-flushed-entry-is-served")
+}
